@@ -50,7 +50,8 @@ fn code_fence_delimiter_named(line: &[u8]) -> (r: Option<(char, usize, usize)>) 
     if not re.search(r"\(\s*line\s*:\s*&str\s*,\s*marker\s*:\s*char\s*,\s*min_len\s*:\s*usize\s*\)", sig2):
         raise AnchorLost("is_code_fence_close signature changed")
     sig2 = sig2.replace("line: &str", "line: &[u8]")
-    b2, n2 = re.subn(r"line\[after\.\.\]\s*\.trim_matches\(\|c\| c == ' ' \|\| c == '\\t' \|\| c == '\\r' \|\| c == '\\n'\)\s*\.is_empty\(\)", "rest_is_blank(line, after)", body2)
+    # the test on the rest of the line (`line[after..]` followed by trimming calls and `.is_empty()`) is abstracted
+    b2, n2 = re.subn(r"line\[\s*(\w+)\s*\.\.\s*\]\s*(?:\.\s*\w+\s*\((?:[^()]|\([^()]*\))*\)\s*)*?\.\s*is_empty\(\)", r"rest_is_blank(line, \1)", body2)
     b2 = b2.replace("code_fence_delimiter(line)", "code_fence_delimiter_named(line)")
     if n2 != 1:
         raise AnchorLost("is_code_fence_close: trailing blank test not found")
@@ -133,14 +134,34 @@ fn expand_includes_protocol(canonical_path: u64, active_set: &mut HashSet<u64>) 
     plan.dropped += u.dropped
 
 
+def full_unit(plan):
+    from units import vC20
+    fns = {"expand_mechdown_include_tokens": "C20.verus.expand_mechdown_include_tokens.line_substitution",
+           "expand_mechdown_includes_recursive": "C20.verus.expand_mechdown_includes_recursive.textual_substitution"}
+    what = {"expand_mechdown_include_tokens": "for every text, file system and active set: the result is the text with every stand-alone `{x.mec}` line replaced by the expansion of that file (resolved against the including file's directory) followed by the line's own newline, every other line untouched, in order; a path that does not resolve is an error; the active set is unchanged on success",
+            "expand_mechdown_includes_recursive": "for every path, file system and active set: the result is unfold(path, active) -- error if the path does not resolve, if the file is already being expanded (cycle) or cannot be read; otherwise the file's lines with fenced lines copied (a fence ends at its closing delimiter) and every other line expanded as above, with the file in the active set during the expansion and the set restored on success"}
+    for fn, on in fns.items():
+        plan.ob(on, "verus", "proved", functions=["src/mechfs.rs: " + fn + " (whole body)"], what=what[fn])
+    src = read_repo(MECHFS)
+    for fn, uname, build in (("expand_mechdown_include_tokens", "c20_tokens", vC20.tokens_unit), ("expand_mechdown_includes_recursive", "c20_rec", vC20.rec_unit)):
+        try:
+            plan.verus.append(VerusUnit(uname, build(src), {fn: fns[fn]}, ["canary_" + uname]))
+        except AnchorLost as e:
+            plan.anchor_errors.append((fns[fn], str(e)))
+    plan.dropped.append(vC20.__doc__.strip())
+
+
 def plan(plan, tier, seed):
     try:
         unit(plan)
     except AnchorLost as e:
         plan.anchor_errors.append(("C20.*", str(e)))
+    full_unit(plan)
     plan.functions += ["src/mechfs.rs: code_fence_delimiter; active-set protocol of expand_mechdown_includes_recursive"]
     plan.trusted += ["Verus / Z3, vstd HashSet specification"]
-    plan.assumptions += ["the replaced middle of expand_mechdown_includes_recursive satisfies the function's own contract (modular recursion; termination not proved)",
+    plan.assumptions += ["modular recursion: the inner call of expand_mechdown_includes_recursive is a stand-in whose result is the NAME rec(path, active) and which restores the active set on success (the function's own contract); what is proved is the recursion equation F = unfold[rec := F], i.e. partial correctness -- termination is not proved",
+                         "ASSUMED std contracts (named, uninterpreted in contracts/C20/incmodel.rs): str::split_inclusive('\\n') (and the two stated facts: re-splitting the concatenation of consecutive pieces gives those pieces, pieces are non-empty), str::strip_suffix, str::trim, String::push_str / is_empty / clear, Path::parent / join / canonicalize, File::open + read_to_string; HashSet per vstd",
+                         "the line classifiers are names in the whole-body unit: code_fence_delimiter and is_code_fence_close have their own obligations (C20.classifier.*); standalone_braced_content and looks_like_mech_include (str::trim / starts_with / ends_with) are not under contract",
                          "path identity: canonicalize() maps equal files to equal paths (file system, not verified)"]
-    plan.undecided_clauses += ["C20: that the result equals the textual substitution, relative-path resolution, fence tracking across lines, is_code_fence_close / standalone_braced_content / looks_like_mech_include (str::trim, ends_with), missing-file errors and termination are not decided"]
+    plan.undecided_clauses += ["C20: termination of the expansion (needs finiteness of the file system); that standalone_braced_content / looks_like_mech_include recognise exactly the stand-alone `{path.mec}` lines (str code); the error text naming the missing file"]
     plan.level = "proof"
